@@ -47,6 +47,9 @@ def case_strategy(draw):
         if draw(st.booleans()):
             c["Lambda"] = draw(cases.f(-0.3, 0.3))
     c["kw"] = dict(clear_cache_every_nbr_calc=10**6)
+    c["first"] = draw(st.sampled_from(
+        [None, "st_covd_udown4", "accelerationdown4", "theta", "sheardown4",
+         "omega2", "s_RicciS_u", "dtconserved"]))
     return c
 
 
@@ -92,7 +95,7 @@ def test_case(case, note):
     for lvl in (0, 1):
         rel, ex, fd, trim = su.build(lvl)
         out = {}
-        for k in KEYS:
+        for k in ([case["first"]] if case.get("first") else []) + KEYS:
             try:
                 out[k] = rel[k]
             except Exception as e:  # noqa: BLE001
@@ -182,10 +185,11 @@ KW = dict(clear_cache_every_nbr_calc=10**6)
 
 def generic_cases():
     out = []
-    for o, Lam, form in ((4, 0.2, "components"), (2, 0.0, "tensors"),
-                         (6, 0.0, "components")):
+    for o, Lam, form, first in ((4, 0.2, "components", "st_covd_udown4"),
+                                (2, 0.0, "tensors", "accelerationdown4"),
+                                (6, 0.0, "components", "sheardown4")):
         out.append(dict(cases.generic_W(o), Lambda=Lam, form=form,
-                        matter="Tdown4", vacuum=False, kw=KW))
+                        matter="Tdown4", vacuum=False, kw=KW, first=first))
     out.append(dict(cases.generic_KS(4), Lambda=0.0, form="components",
                     matter="none", vacuum=True, kw=KW))
     out.append(dict(cases.generic_PP(2), Lambda=0.0, form="tensors",
